@@ -63,9 +63,13 @@ TDelReturn == IsEvent("DelReturn") /\ E.ok = 1 /\ UNCHANGED <<open, running, kf>
 \* afterwards new requests can load shards again
 TProbe == IsEvent("Probe") /\ E.ok = 1 /\ UNCHANGED <<open, running, kf>>
 
+\* an open that fails (the shard file cannot be opened) gives a clean error and leaves nothing behind: once
+\* the file is repaired the next request loads the shard (ShardMgr.tla, the failing branch of ReqLoad)
+TOpenFail == IsEvent("OpenFail") /\ E.first = 0 /\ E.second = 1 /\ UNCHANGED <<open, running, kf>>
+
 \* (no action consumes "Stuck": every shard-manager call must return)
 
-TraceNext == TNew \/ TOpened \/ TClosed \/ TRunEnter \/ TRunExit \/ TReturn \/ TRemove \/ TDelReturn \/ TProbe
+TraceNext == TNew \/ TOpened \/ TClosed \/ TRunEnter \/ TRunExit \/ TReturn \/ TRemove \/ TDelReturn \/ TProbe \/ TOpenFail
 TraceSpec == TraceInit /\ [][TraceNext]_vars
 
 WF == Cardinality(open) <= 1
